@@ -69,6 +69,9 @@ enum Base {
     /// validated parse (validator crate) with six failing fields: the order of the issues, the
     /// located one and the parameters of each must not depend on a hash seed
     ValidatorFail,
+    /// a parse started from inside the budget-report callback of another parse, with a clone of
+    /// the same options (the callback closure is shared by the clones)
+    CallbackNested,
     /// two documents that reuse the same anchor name
     Multi,
     /// from_reader with shared anchors
@@ -78,10 +81,10 @@ enum Base {
     IterShared,
 }
 use Base::*;
-const BASES: [Base; 26] = [
+const BASES: [Base; 27] = [
     ParseOk, AnchoredSyntaxFail, AnchoredTypeFail, FailInRcContext, FailInAliasReplay, BudgetBreach, BudgetExact,
     AliasLimitExact, SharedRc, SharedArc, Recursive, MissingField, UnknownField, RootStaticError, DupKey, IterAbandon,
-    IterFull, VisitorPanics, CaughtPanicInside, SerAnchors, SerFailWriter, ValidatedFail, Multi, ReaderShared, IterShared, ValidatorFail,
+    IterFull, VisitorPanics, CaughtPanicInside, SerAnchors, SerFailWriter, ValidatedFail, Multi, ReaderShared, IterShared, ValidatorFail, CallbackNested,
 ];
 
 /// the outer document of a nested call
@@ -141,6 +144,7 @@ fn core_alphabet() -> Vec<Call> {
         Call::B(SerFailWriter),
         Call::B(ValidatedFail),
         Call::B(ValidatorFail),
+        Call::B(CallbackNested),
         Call::Nested(Outer::Before, SharedRc),
         Call::Nested(Outer::Missing, MissingField),
         Call::B(AnchoredTypeFail),
@@ -562,6 +566,26 @@ fn run_base(b: Base) -> String {
             }
         }
         ValidatedFail => res_obs(serde_saphyr::from_str_valid::<Validated>("first: &v abc\nsecond: *v\n")),
+        CallbackNested => {
+            let slot: Rc<RefCell<Option<serde_saphyr::Options>>> = Rc::new(RefCell::new(None));
+            let inner: Rc<RefCell<Vec<String>>> = Rc::new(RefCell::new(vec![]));
+            let busy = Rc::new(Cell::new(false));
+            let (slot2, inner2) = (slot.clone(), inner.clone());
+            let opts = serde_saphyr::Options::default().with_budget_report(move |_report| {
+                if busy.replace(true) {
+                    return;
+                }
+                let shared = slot2.borrow().clone();
+                if let Some(o) = shared {
+                    inner2.borrow_mut().push(res_obs(serde_saphyr::from_str_with_options::<Vec<i32>>("[1, 2, 3]", o)));
+                }
+                busy.set(false);
+            });
+            *slot.borrow_mut() = Some(opts.clone());
+            let outer = res_obs(serde_saphyr::from_str_with_options::<Vec<i32>>("[4, 5]", opts));
+            *slot.borrow_mut() = None;
+            format!("{outer} ;; inner {:?}", inner.borrow())
+        }
         ValidatorFail => res_obs(serde_saphyr::from_str_validate::<Validated6>("a: x\nb: &v y\nc: *v\nd: 1\ne: zz\nf: q\n")),
         Multi => {
             #[derive(Deserialize)]
@@ -595,6 +619,7 @@ fn run_base(b: Base) -> String {
 fn marker(b: Base) -> &'static [&'static str] {
     match b {
         ParseOk => &["OK {\"a\": [1, 2], \"b\": [3]}"],
+        CallbackNested => &["OK [4, 5] ;; inner [\"OK [1, 2, 3]\"]"],
         SharedRc | SharedArc | ReaderShared => &["OK n=[1, 1, 1] classes=[0, 0, 1, 1] counts=[2, 1]"],
         IterShared => &["2 items: OK n=[1, 1, 1] classes=[0, 0, 1, 1] counts=[2, 1] ;; OK n=[2, 2, 2] classes=[0, 0, 1, 1] counts=[2, 1]"],
         Recursive => &["OK name=Aurelian coronator=Aurelian same=true"],
@@ -889,7 +914,7 @@ impl Property for C15 {
     const ID: &'static str = "C15";
     type Case = Case;
     fn rule() -> String {
-        "cases = call histories over an alphabet of 26 base calls (successful parse; syntax / type error midway through an anchored node; error inside an RcAnchor context and inside a replayed alias; budget breach; budget and alias-replay limit set exactly to what the document needs; shared RcAnchor / ArcAnchor / weak / RcRecursive parses observed through pointer classes and strong counts; missing-field, unknown-field and a root-level static serde error whose location can only come from the thread-local fallback; duplicate key; streaming iterator abandoned after one item / run to its failing end; Deserialize impl that panics (caught outside) and one whose panic is caught inside the document; serialisation with anchors and into a failing writer; garde-validated parse that fails; validator-crate parse with six failing fields (issue order, located issue and parameters must not depend on a hash seed); multi-document parse reusing anchor names; from_reader) plus 25 nested calls (an inner call performed inside the Deserialize impl of a field of an outer document whose anchors / aliases lie before, around and after it, or which ends in a missing-/unknown-field error). Every history runs on one fresh thread. Oracle: each call's observation (value Debug, or error Debug + rendered message with location, pointer classes, emitted text) equals the observation of the same call alone on a fresh thread; for nested calls the inner observation equals the isolated inner call and the outer observation equals the same outer document parsed without a nested call; isolated observations are equal on two fresh threads and contain the documented constants (sharing classes, anchors &a1/*a1). Exhaustive: all histories of length <= 3 over the full alphabet (quick; thorough: <= 4), all of length 4 over a 28-call core alphabet; random histories of length 4..12. Non-trivial: a failing / panicking / nested / abandoned call precedes a call whose observation includes pointer classes or a fallback location. distinct = distinct histories.".into()
+        "cases = call histories over an alphabet of 27 base calls (successful parse; syntax / type error midway through an anchored node; error inside an RcAnchor context and inside a replayed alias; budget breach; budget and alias-replay limit set exactly to what the document needs; shared RcAnchor / ArcAnchor / weak / RcRecursive parses observed through pointer classes and strong counts; missing-field, unknown-field and a root-level static serde error whose location can only come from the thread-local fallback; duplicate key; streaming iterator abandoned after one item / run to its failing end; Deserialize impl that panics (caught outside) and one whose panic is caught inside the document; serialisation with anchors and into a failing writer; garde-validated parse that fails; validator-crate parse with six failing fields (issue order, located issue and parameters must not depend on a hash seed); a parse started from inside the budget-report callback of another parse with a clone of its options; multi-document parse reusing anchor names; from_reader) plus 25 nested calls (an inner call performed inside the Deserialize impl of a field of an outer document whose anchors / aliases lie before, around and after it, or which ends in a missing-/unknown-field error). Every history runs on one fresh thread. Oracle: each call's observation (value Debug, or error Debug + rendered message with location, pointer classes, emitted text) equals the observation of the same call alone on a fresh thread; for nested calls the inner observation equals the isolated inner call and the outer observation equals the same outer document parsed without a nested call; isolated observations are equal on two fresh threads and contain the documented constants (sharing classes, anchors &a1/*a1). Exhaustive: all histories of length <= 3 over the full alphabet (quick; thorough: <= 4), all of length 4 over a 28-call core alphabet; random histories of length 4..12. Non-trivial: a failing / panicking / nested / abandoned call precedes a call whose observation includes pointer classes or a fallback location. distinct = distinct histories.".into()
     }
     fn assumptions() -> Vec<String> {
         vec![
@@ -932,14 +957,14 @@ impl Property for C15 {
         let mut s = a.clone();
         s.sort();
         s.dedup();
-        if s.len() != a.len() || a.len() != 54 {
-            return Err(format!("alphabet has {} symbols ({} distinct), expected 54", a.len(), s.len()));
+        if s.len() != a.len() || a.len() != 55 {
+            return Err(format!("alphabet has {} symbols ({} distinct), expected 55", a.len(), s.len()));
         }
         // (the exact-limit calls check themselves: their isolated observation must contain
         // "at-limit: OK" and "below: ERR")
         Ok(())
     }
-    /// libFuzzer input: a history of up to 12 calls, one byte per call over the 54-call alphabet
+    /// libFuzzer input: a history of up to 12 calls, one byte per call over the 55-call alphabet
     fn fuzz_decode(data: &[u8]) -> Option<(&'static str, Case, bool)> {
         let alpha = alphabet();
         let calls: Vec<Call> = data.iter().take(12).map(|x| alpha[*x as usize % alpha.len()]).collect();
